@@ -16,12 +16,13 @@ class C06(FitKernels, FragHarness):
                 out.append({'algo': 'F', 'num': 'int', 'n': n, 'nlw': nlw, 'B': 1 << 40, 'LB': 1 << 52, 'SB': 1 << 20, 'PB': 1 << 20})
             for n in range(0, (2 if q else 3) + 1):
                 out.append({'algo': 'F', 'num': 'fp', 'n': n, 'nlw': nlw, 'float_mode': 'fp'})
-            for n in range(0, (3 if q else 4) + 1):
-                if (n == 4 and nlw != 1) or (nlw == 3 and (n < 3 or q)):
+            # optimal-fit end to end (cost closure + smawk + back-tracking) on integer widths; n = 4 took > 30 min
+            # with solver time-outs on the gap*gap path conditions and is left to the decomposition below
+            # (smawk contract on arbitrary matrices up to size 8 + back-tracking kernel), which does not need them
+            for n in range(0, 3 + 1):
+                if nlw == 3 and (n < 3 or q):
                     continue
-                big = n >= 4
-                out.append({'algo': 'O', 'num': 'int', 'n': n, 'nlw': nlw, 'B': 64 if big else 1 << 10,
-                            'LB': 256 if big else 1 << 12, 'SB': 3, 'PB': 2})
+                out.append({'algo': 'O', 'num': 'int', 'n': n, 'nlw': nlw, 'B': 1 << 10, 'LB': 1 << 12, 'SB': 3, 'PB': 2})
         # engine C: one iteration of each algorithm's line-emitting loop from an arbitrary state satisfying the
         # stated invariant (fragment lists of ANY length), and the contract of smawk::online_column_minima that the
         # optimal-fit step assumes, over an arbitrary (unconstrained, even non-deterministic) matrix
@@ -47,8 +48,7 @@ class C06(FitKernels, FragHarness):
                 'closure call returns a fresh value, so any cost function) and size %d with unconstrained integers. '
                 'Outside: the cost closure itself with non-integer f64 widths (its panic-freedom on in-range indices is '
                 'C04), LineNumbers::get beyond n <= %d.'
-                % (4 if q else 6, 2 if q else 3, 2 if q else 3, 3 if q else 4, 2 if q else 3, 5 if q else 7, 6 if q else 8,
-                   3 if q else 4))
+                % (4 if q else 6, 2 if q else 3, 2 if q else 3, 3, 2 if q else 3, 5 if q else 7, 6 if q else 8, 3))
 
     def run(self, I, cfg):
         lv = cfg.get('level')
